@@ -674,9 +674,6 @@ class PLSSDesc:
         if clean_qq is None:
             clean_qq = self.clean_qq
 
-        # Config object for passing down to Tract objects.
-        handed_down_config = self.config.decompile_to_text()
-
         if segment is None:
             segment = self.segment
 
@@ -697,6 +694,20 @@ class PLSSDesc:
             qq_depth_min = self.qq_depth_min
         if qq_depth_max is None:
             qq_depth_max = self.qq_depth_max
+
+        # Config for passing down to Tract objects. It must reflect the
+        # settings locked down for this parse (keyword arguments and the
+        # attributes of this object), not only the stored `.config`.
+        tract_config = Config(self.config)
+        tract_config.parse_qq = parse_qq
+        tract_config.clean_qq = clean_qq
+        tract_config.suppress_lot_divs = self.suppress_lot_divs
+        tract_config.ocr_scrub = ocr_scrub
+        tract_config.qq_depth = qq_depth
+        tract_config.qq_depth_min = qq_depth_min
+        tract_config.qq_depth_max = qq_depth_max
+        tract_config.break_halves = break_halves
+        handed_down_config = tract_config.decompile_to_text()
 
         # Parameters for `PLSSParser.parse()`.
         config_params = {
